@@ -67,28 +67,150 @@ def check_one(ctx, path):
         ctx.fail("canonicalize-raises", "canonicalize raises on a path string", case={"path": path},
                  expected="a canonical absolute path", observed=repr(e))
         return None
+    check_out(ctx, {"path": path}, out, "", "canonicalize returns")
+    return out
+
+
+def check_out(ctx, case, out, suffix, who):
+    """absolute, no '.' / '..' component, one or two slashes + names, ROOT + out inside ROOT."""
     if not isinstance(out, str) or not out.startswith("/"):
-        ctx.fail("not-absolute", "canonicalize returns a path that is not absolute", case={"path": path},
+        ctx.fail("not-absolute" + suffix, who + " a path that is not absolute", case=case,
                  expected="a path starting with '/'", observed=out)
-        return out
+        return False
     parts = out.split("/")
     if "." in parts or ".." in parts:
-        ctx.fail("dot-component", "canonicalize returns a path with a '.' or '..' component",
-                 case={"path": path}, expected="no '.' / '..' component", observed=out)
-        return out
+        ctx.fail("dot-component" + suffix, who + " a path with a '.' or '..' component",
+                 case=case, expected="no '.' / '..' component", observed=out)
+        return False
     names = comps(out)
     k = len(out) - len(out.lstrip("/"))
+    ok = True
     if out != "/" * k + "/".join(names) or k not in (1, 2):
-        ctx.fail("shape", "canonicalize result is not one or two slashes followed by names joined by single slashes",
-                 case={"path": path}, expected="/" + "/".join(names), observed=out)
+        ctx.fail("shape" + suffix, who + " something that is not one or two slashes followed by names joined by "
+                 "single slashes", case=case, expected="/" + "/".join(names), observed=out)
+        ok = False
     for root in ROOTS:
         full = root + out
         if comps(full) != comps(root) + names or resolve(full)[:len(resolve(root))] != resolve(root) \
                 or len(resolve(full)) != len(resolve(root)) + len(names):
-            ctx.fail("escapes-root", "ROOT + canonicalize(path) does not stay inside ROOT",
-                     case={"path": path, "root": root}, expected=resolve(root) + names, observed=resolve(full))
+            ctx.fail("escapes-root" + suffix, "ROOT + the canonical path does not stay inside ROOT",
+                     case=dict(case, root=root), expected=resolve(root) + names, observed=resolve(full))
+            return False
+    return ok
+
+
+# --------------------------------------------------------------------------- the REALPATH request path
+# The real SFTPServer is driven directly: an instance per session (constructed the way Transport does for a
+# subsystem request, on a stub channel), CMD_REALPATH packets handed to _process, the CMD_NAME reply captured
+# at _send_packet.  Several sessions live in one process; some are served by an overriding SFTPServerInterface,
+# the others by the default one, and they are asked about the same path strings.
+
+INTERFACES = ["default", "gateway", "home", "default-subclass"]
+
+
+def make_session(kind):
+    from paramiko.sftp_server import SFTPServer
+    from paramiko.sftp_si import SFTPServerInterface
+    from paramiko.server import ServerInterface
+
+    class Gateway(SFTPServerInterface):          # forwards paths unresolved to a backend
+        def canonicalize(self, path):
+            return path
+
+    class Home(SFTPServerInterface):             # home-relative, keeps what the client typed
+        def canonicalize(self, path):
+            return "/home/u/" + path
+
+    class Plain(SFTPServerInterface):            # a subclass that keeps the default canonicalisation
+        pass
+
+    cls = {"default": SFTPServerInterface, "gateway": Gateway, "home": Home, "default-subclass": Plain}[kind]
+
+    class StubTransport:
+        def get_log_channel(self):
+            return "paramiko.verif.c34"
+
+        def get_hexdump(self):
+            return False
+
+    class StubChannel:
+        def get_transport(self):
+            return StubTransport()
+
+        def get_name(self):
+            return "0"
+
+    srv = SFTPServer(StubChannel(), "sftp", ServerInterface(), cls)
+    srv.sock = StubChannel()
+    srv._replies = []
+    srv._send_packet = lambda t, packet: srv._replies.append((t, bytes(packet.asbytes() if hasattr(packet, "asbytes")
+                                                                          else packet)))
+    return srv
+
+
+def realpath(srv, reqno, path):
+    """Send one REALPATH request through SFTPServer._process; returns ('name', filename) | ('other', type, bytes)."""
+    from paramiko.message import Message
+    from paramiko.sftp import CMD_REALPATH, CMD_NAME
+    m = Message()
+    m.add_string(path)
+    m.rewind()
+    del srv._replies[:]
+    srv._process(CMD_REALPATH, reqno, m)
+    if len(srv._replies) != 1:
+        return ("other", None, repr(srv._replies)[:200])
+    t, data = srv._replies[0]
+    r = Message(data)
+    if t != CMD_NAME or r.get_int() != reqno or r.get_int() != 1:
+        return ("other", t, data)
+    return ("name", r.get_text())
+
+
+class _Quiet:
+    """Stands in for ctx while a scenario is only probed (nothing is reported)."""
+
+    def __init__(self):
+        self.fails = []
+
+    def fail(self, key, what, **kw):
+        self.fails.append(key)
+
+
+def realpath_scenario(ctx, case):
+    """case = {"via": "realpath", "sessions": [kinds], "steps": [[session index, path], ...]}.
+    Every answer of a session served with the default canonicalisation must be canonical (absolute, dot-free,
+    inside ROOT) and equal to what its own interface's canonicalize returns for that path, whatever any session
+    in the process was asked before."""
+    from paramiko.sftp_si import SFTPServerInterface
+    sessions = [make_session(k) for k in case["sessions"]]
+    answers = []
+    ok = True
+    for n, (i, path) in enumerate(case["steps"]):
+        kind = case["sessions"][i]
+        try:
+            r = realpath(sessions[i], 100 + n, path)
+        except Exception as e:  # noqa
+            r = ("other", None, repr(e))
+        answers.append(r[1] if r[0] == "name" else repr(r))
+        if not kind.startswith("default"):
+            continue
+        where = dict(case, step=n)
+        if r[0] != "name":
+            ctx.fail("realpath-no-name-reply", "REALPATH on a default-canonicalisation session is not answered with "
+                     "one CMD_NAME entry", case=where, expected="CMD_NAME, 1 entry", observed=repr(r)[:200])
+            ok = False
             break
-    return out
+        if not check_out(ctx, where, r[1], "-via-realpath",
+                         "REALPATH on a session served with the default canonicalisation answers"):
+            ok = False
+            break
+        want = SFTPServerInterface.canonicalize(sessions[i].server, path)
+        if r[1] != want:
+            ctx.fail("realpath-differs-from-canonicalize", "REALPATH answer differs from what the session's own "
+                     "interface canonicalises", case=where, expected=want, observed=r[1])
+            ok = False
+            break
+    return ok, answers
 
 
 def nth_string(length, idx):
@@ -169,7 +291,9 @@ def run(ctx):
                 "up to length %d through the model (thorough: 10 / 8), a seeded sample of the longer ones through the "
                 "model, seeded random long paths ('..' runs, repeated separators, dotted names, non-ASCII), every string up "
                 "to length 5 (thorough 6) over {'/', U+2025, U+2024, U+FF0E, 'a'} and seeded paths built from Unicode "
-                "look-alikes of '.', '..', '/' and composed / decomposed names; "
+                "look-alikes of '.', '..', '/' and composed / decomposed names; the same paths as REALPATH requests through "
+                "the real SFTPServer._process, several sessions per process (overriding and default interfaces, "
+                "same strings, same session asked twice, different orders); "
                 "non-trivial = distinct non-empty path" % (oracle_len, model_len))
     ctx.trusted += ["model coq/Model/C34.v is hand-written; canonicalize is tied to paramiko/sftp_si.py and the "
                     "normpath model to the running interpreter's posixpath.normpath by this differential run "
@@ -258,6 +382,45 @@ def run(ctx):
                      impl=cases[i][1])
     ctx.sample({"canonicalize": {"path": "/pub/\u2025/\u2025/etc", "impl": canon("/pub/\u2025/\u2025/etc")}})
 
+    # ---- 3c. the REALPATH request path of the real SFTPServer: several sessions in one process ------------
+    short = ["".join(t) for n in range(0, 5) for t in itertools.product(ALPHA, repeat=n)]
+    pools = [short,
+             [gen_long(rng) for _ in range(400 if ctx.thorough else 80)],
+             [gen_unicode(rng) for _ in range(400 if ctx.thorough else 80)],
+             ["/pub/../..", "../../etc/passwd", "a/./b/../../..", "//..", "//../x", "..", ".", "", "/"]]
+    nscen = 0
+    for pool in pools:
+        for k in range(0, len(pool), 16):
+            paths = pool[k:k + 16]
+            # an overriding session is asked first, then default sessions (same strings); the same session twice;
+            # and default first / override / default again
+            kinds = [rng.choice(["gateway", "home"]), "default", rng.choice(["default-subclass", "default"]),
+                     rng.choice(["gateway", "home"])]
+            order = rng.choice([[0, 1, 1, 2, 3, 1], [1, 0, 1, 2], [3, 0, 2, 1, 1], [0, 3, 2, 2, 1]])
+            steps = [[i, pth] for i in order for pth in paths]
+            case = {"via": "realpath", "sessions": kinds, "steps": steps}
+            quiet = _Quiet()
+            good, _ = realpath_scenario(quiet, case)
+            nscen += 1
+            ctx.evaluations += len(steps)
+            ctx.dist["realpath-requests"] = ctx.dist.get("realpath-requests", 0) + len(steps)
+            ctx.count(("realpath", nscen, repr(paths)), kind="realpath-scenario")
+            if not good:
+                # minimise before reporting: one path, the shortest prefix of the session order that still fails
+                best = case
+                for pth in paths:
+                    for cut in range(1, len(order) + 1):
+                        mini = {"via": "realpath", "sessions": kinds, "steps": [[i, pth] for i in order[:cut]]}
+                        if not realpath_scenario(_Quiet(), mini)[0]:
+                            if len(mini["steps"]) < len(best["steps"]):
+                                best = mini
+                            break
+                    if len(best["steps"]) <= 2:
+                        break
+                _, ans = realpath_scenario(ctx, best)
+                ctx.sample({"realpath": {"case": best, "answers": ans}})
+                break
+
     # ---- 4. the library model itself: posixpath.normpath incl. relative paths ----------------------------
     cases = []
     for _ in range(1500 if ctx.thorough else 200):
@@ -275,7 +438,11 @@ def replay(ctx, rep):
     from paramiko.server import ServerInterface
     _SI = SFTPServerInterface(ServerInterface())
     case = rep.get("case")
-    if isinstance(case, dict) and "path" in case:
+    if isinstance(case, dict) and case.get("via") == "realpath":
+        ctx.count(("replay", repr(case)))
+        ctx.count(("replay2", repr(case)))
+        realpath_scenario(ctx, {k: case[k] for k in ("via", "sessions", "steps")})
+    elif isinstance(case, dict) and "path" in case:
         ctx.count(("replay", case["path"]))
         ctx.count(("replay2", case["path"]))
         check_one(ctx, case["path"])
